@@ -11,6 +11,7 @@ import (
 	"github.com/q191201771/lal/pkg/base"
 	"github.com/q191201771/lal/pkg/httpflv"
 	"github.com/q191201771/lal/pkg/logic"
+	"github.com/q191201771/lal/pkg/remux"
 	"github.com/q191201771/lal/pkg/rtmp"
 )
 
@@ -26,10 +27,10 @@ func (c01Observer) OnRelayPullStart(info base.PullStartInfo)                    
 func (c01Observer) OnRelayPullStop(info base.PullStopInfo)                            {}
 
 type c01Cfg struct {
-	rc, fc          bool
-	rg, rk, fg, fk  int
-	ms              int
-	rec             bool
+	rc, fc         bool
+	rg, rk, fg, fk int
+	ms             int
+	rec            bool
 }
 
 func c01ParseCfg(s string) c01Cfg {
@@ -214,6 +215,31 @@ func c01Run(cfgS, evS string) string {
 func init() {
 	// grp.run <cfg> <events>  =>  bytes every consumer received, and the recordings
 	ops["grp.run"] = func(a []string) string { return c01Run(a[0], a[1]) }
+	// lazy.msg <typ> <ts> <payload>  =>  the lazily built forms of one published message: RTMP chunks with and without
+	// @setDataFrame (relay push / rtmp consumers), FLV tag without (flv consumers, recording; the with-form is not implemented in lal)
+	ops["lazy.msg"] = func(a []string) string {
+		p := unhx(a[2])
+		var m base.RtmpMsg
+		m.Header.Csid = 6
+		m.Header.MsgTypeId = uint8(atoi(a[0]))
+		m.Header.MsgStreamId = 1
+		m.Header.TimestampAbs = uint32(atoi(a[1]))
+		m.Header.MsgLen = uint32(len(p))
+		m.Payload = p
+		var lc remux.LazyRtmpChunkDivider
+		lc.Init(m)
+		var lt remux.LazyRtmpMsg2FlvTag
+		lt.Init(m)
+		// asked for in both orders: the second form must not depend on what building the first one left behind
+		w1, wo1 := hx(lc.GetEnsureWithSdf()), hx(lc.GetEnsureWithoutSdf())
+		var lc2 remux.LazyRtmpChunkDivider
+		lc2.Init(m)
+		wo2, w2 := hx(lc2.GetEnsureWithoutSdf()), hx(lc2.GetEnsureWithSdf())
+		if w1 != w2 || wo1 != wo2 {
+			return "order-dependent"
+		}
+		return w1 + " " + wo1 + " " + hx(lt.GetEnsureWithoutSdf())
+	}
 	gens["C01"] = genC01
 	gens["C02"] = genC02
 	gens["C16"] = genC16
@@ -386,6 +412,15 @@ func genC01(g *G) {
 				evs = append(evs, base0[pos:]...)
 				g.L("corpus-join@" + k).run(fmt.Sprintf("grp.run %s %s", cfg, strings.Join(evs, ";")))
 			}
+		}
+	}
+	// the lazily built forms of single messages: metadata with / without @setDataFrame, malformed metadata, media
+	for _, ts := range []int{0, 40, 16777214, 16777215, 16777216, 4294967295} {
+		for _, p := range [][]byte{c01Metadata(r, true), c01Metadata(r, false), {2, 0, 3, 'a', 'b', 'c'}, {2, 0}, {5}, r.Bytes(300)} {
+			g.L("lazy-metadata").run(fmt.Sprintf("lazy.msg 18 %d %s", ts, hx(p)))
+		}
+		for _, n := range []int{1, 5, 4095, 4096, 4097, 8192, 8193, 20000} {
+			g.L("lazy-media").run(fmt.Sprintf("lazy.msg %d %d %s", r.Pick(8, 9), ts, hx(r.Bytes(n))))
 		}
 	}
 	for i := 0; i < g.scale(400, 20000); i++ {
